@@ -28,7 +28,7 @@ Build == phase = "build" /\ Next /\ UNCHANGED avars
 Start == /\ phase = "build" /\ phase' = "run" /\ stack' = <<[file |-> F1, i |-> 1]>>
          /\ visited' = IF Variant = "fixed" THEN {F1} ELSE {}
          /\ defs' = [k \in 1..(Len(Ops(F1)) + Len(Frags(F1))) |->
-                        <<F1, IF k <= Len(Ops(F1)) THEN Ops(F1)[k] ELSE Frags(F1)[k - Len(Ops(F1))]>>]
+                        IF k <= Len(Ops(F1)) THEN <<F1, "op", Ops(F1)[k]>> ELSE <<F1, "frag", Frags(F1)[k - Len(Ops(F1))]>>]
          /\ UNCHANGED <<lines, order, requested, failed>>
 
 Top == stack[Len(stack)]
@@ -38,7 +38,7 @@ Bump == [Pop EXCEPT ![Len(Pop)].i = @ + 1]
 FlattenOrder == LET RECURSIVE Fl(_)
                     Fl(k) == IF k > Len(order) THEN <<>>
                              ELSE [j \in 1..Cardinality(requested[order[k]]) |->
-                                     <<order[k], Files[order[k]].frags[SetToSortSeq(requested[order[k]], <)[j]].name>>]
+                                     <<order[k], "frag", Files[order[k]].frags[SetToSortSeq(requested[order[k]], <)[j]].name>>]
                                   \o Fl(k + 1)
                 IN Fl(1)
 
@@ -51,7 +51,7 @@ DoSelect(caller, imp, t) ==
        /\ IF Variant = "fixed"
           THEN requested' = [requested EXCEPT ![t] = @ \cup Wanted(t, imp)] /\ UNCHANGED defs
           ELSE defs' = defs \o [j \in 1..Cardinality(Wanted(t, imp)) |->
-                                  <<t, Files[t].frags[SetToSortSeq(Wanted(t, imp), <)[j]].name>>]
+                                  <<t, "frag", Files[t].frags[SetToSortSeq(Wanted(t, imp), <)[j]].name>>]
                /\ UNCHANGED requested
 
 (* all import lines of the top file handled: return to the caller, which *)
